@@ -246,6 +246,35 @@ def run(rep: Report, repo: Repo):
     rep.note(f'operator tables: {sorted(set(k[0] for k in tabs))}')
 
 
+def depends(rep, repo):
+    """The package itself calls the bit-parallel operators with the output array being one of the operands
+    (LogicSim: `logic.bp4v_not(self.c[o0], self.c[o0])` ...). For exactly those call shapes the operator must give the
+    same table as without aliasing (rule C02.alias, evaluated here as well)."""
+    from checks import c02
+    from kvstatic.tt import LaneViolation
+    lg = Logic(repo)
+    rep.rule('C02.alias', 'a call whose output location is also an operand gives the same table as without aliasing')
+    mod, cp, chains, tv, tables, infos, luts, reach, weights, rows, sites = c02.branch_tables(rep, repo, lg)
+    seen = set()
+    for (m, const), (info, body, test) in sorted(infos.items()):
+        for fn, out, args in info['calls']:
+            if fn != 'copy' and out in args:
+                j = args.index(out)
+                nplanes = 2 if m == 4 else 3
+                key = (fn, len(args), nplanes, j)
+                if key in seen:
+                    continue
+                seen.add(key)
+                try:
+                    oka = lg.bp_table(fn, len(args), nplanes)[0] == lg.bp_table(fn, len(args), nplanes, alias=j)[0]
+                except LaneViolation:
+                    oka = False
+                rep.ob('C02.alias', f'{fn}/{len(args)} planes={nplanes} out=in{j}', oka)
+                if not oka:
+                    rep.violate('C02.alias', lg.mod if hasattr(lg, 'mod') else 'logic', fn, f'logic.{fn}(x, ..., x)', f'logic.{fn} with its output array also passed as operand {j} '
+                                f'(as LogicSim.c_prop does for {const}) overwrites the operand before it is read', node=test)
+
+
 def thorough(rep, repo):
     """Thorough tier: the quick rules plus checker self-validation on the C12 slice of the mutation corpus , a second evaluator for engine A and an alias sweep."""
     from kvstatic import thorough as thorough_mod
